@@ -8,7 +8,8 @@ THEOREMS = ["TLVerif.Props.C16." + t for t in [
     "refused_iff", "refused_leaves_fs_unchanged", "after_success_exact", "relative_files_after_success",
     "outside_only_code_keys", "written_iff", "unchanged_not_rewritten", "changed_is_rewritten", "deleted_iff",
     "writes_only_under_outdir_or_basictl", "counts", "second_run_touches_nothing", "protected_forever",
-    "history_exact", "refusal_full_fails_at", "basictl_rel_path_shape"]]
+    "history_exact", "refusal_full_fails_at", "basictl_rel_path_shape", "next_generation_accepted",
+    "each_file_written_at_most_once", "pruning_only_removes_collected"]]
 
 MARKER = "meta/meta.go"
 # keys form a consistent tree: no key is a directory of another key, none collides with DIRS
